@@ -1,4 +1,48 @@
-import AdfModel.Api
+/-
+  C11 — Hostile images: the read path always terminates.
+  Every function of the model is total (Lean accepts no other), and every walk carries an explicit bound that is
+  fixed BEFORE the walk starts.  That alone would make "termination" vacuous; what is proved here is the substance:
+  the amount of work — device accesses, counted by `ioCount` — of each walk of the read path is bounded by a
+  function of the VOLUME SIZE only, for every disk content (all pointers, counts, cycles), every state and every
+  fault schedule.  The bounds are those of the C code after the `fix:` commits (chain walks bounded by the number of
+  blocks, listings by a block budget and a depth limit, the bitmap-extension chain by the volume size, partition
+  lists by 512); the correspondence check ties the C loops to these model loops event by event on cyclic images.
+  Not covered by a theorem: `adfMountHd`'s lists (bounded by a constant in the model's `Top` layer, checked by
+  correspondence), allocation sizes, and the C recursion depth (bounded by ADF_MAX_DIR_DEPTH; observed under ASan).
+-/
+import AdfProofs.WorkBound
 namespace Adf.C11
-theorem C11_placeholder : True := trivial
+open Adf
+
+/-- name lookup (`adfNameToEntryBlk`) follows `nextSameHash` for at most (volume size) reads -/
+theorem C11_lookup_bounded (c : Cfg) (v : Nat) (ht : Blk) (name : Bytes) (s : St) :
+    Post (fun _ => False) c (nameToEntryBlk v ht name) s (fun _ s' =>
+      s'.ioCount ≤ s.ioCount + ((c.vol v).lastBlock - (c.vol v).firstBlock + 1)) :=
+  nameToEntryBlk_work c v ht name s
+
+/-- directory listing, recursive or not, hash-table or dircache mode: at most 6·(volume size)+2 reads;
+    in particular directory cycles and cyclic hash / cache chains end -/
+theorem C11_listing_bounded (c : Cfg) (v nSect : Nat) (recurs : Bool) (s : St) :
+    Post (fun _ => False) c (getRDirEnt v nSect recurs) s (fun _ s' =>
+      s'.ioCount ≤ s.ioCount + 6 * ((c.vol v).lastBlock - (c.vol v).firstBlock + 1) + 2) :=
+  getRDirEnt_work c v nSect recurs s
+
+/-- the bitmap loader: at most 26 + 129·(volume size + 2) reads, including cyclic bitmap-extension chains -/
+theorem C11_bitmap_bounded (c : Cfg) (v nBlock : Nat) (root : Blk) (s : St) :
+    Post AnyFault c (readBitmap v nBlock root) s (fun _ s' =>
+      s'.ioCount ≤ s.ioCount + 26 + 129 * ((c.vol v).lastBlock - (c.vol v).firstBlock + 2)) :=
+  readBitmap_work c v nBlock root s
+
+/-- the extension-block walk of a seek reads at most the number of extension blocks the file size implies -/
+theorem C11_ext_walk_bounded (c : Cfg) (v cnt nSect : Nat) (last : Option Blk) (s : St) :
+    Post (fun _ => False) c (readExtBlockNLoop v cnt nSect last) s (fun _ s' => s'.ioCount ≤ s.ioCount + cnt) :=
+  readExtBlockNLoop_work c v cnt nSect last s
+
+/-- the potential argument behind the listing bound, exposed: reads so far + 3·(remaining budget) never grows by
+    more than 2 over a whole (sub)directory walk -/
+theorem C11_listing_potential (c : Cfg) (v : Nat) (recurs : Bool) (fuel depth sect budget : Nat) (s : St) :
+    Post (fun _ => False) c (listDir v recurs depth fuel sect budget) s (fun r s' =>
+      s'.ioCount + 3 * r.2 ≤ s.ioCount + 3 * budget + 2) :=
+  (listing_work c v recurs fuel).2.2 depth sect budget s
+
 end Adf.C11
